@@ -41,7 +41,7 @@ class Job:
                  defines=(), unwind=6, shim=True, union_struct=False,
                  kind="proof", canary=False, timeout=600, dfcc=None,
                  functions=(), bound="", cbmc_flags=(), harness_unwind=160,
-                 native_sources=None, expect_fail=None, group=None, require=(), include_dirs=(), strip=None):
+                 native_sources=None, expect_fail=None, group=None, require=(), include_dirs=(), strip=None, unwindset=None):
         self.name = name
         self.harness = harness if os.path.isabs(harness) else os.path.join(VERIF, "harness", harness)
         self.entry = entry
@@ -64,6 +64,7 @@ class Job:
         self.group = group or entry
         self.require = list(require)
         self.include_dirs = list(include_dirs)
+        self.unwindset = dict(unwindset or {})   # loop id -> bound, overrides --unwind / the harness default for that loop
         self.strip = strip or {}   # {repo source: [functions whose bodies are removed and supplied by the harness as contracts]}  # regexes: obligations that must exist and be SUCCESS
 
 
@@ -241,12 +242,15 @@ def run_job(job, canary=False):
                         uset.append("%s:%d" % (lp["name"], job.harness_unwind))
     except Exception:
         pass
-    cb = ["cbmc", gb, "--no-malloc-may-fail", "--object-bits", "12", "--json-ui", "--trace",
-          "--unwinding-assertions"]
+    cb = ["cbmc", gb, "--no-malloc-may-fail"] + ([] if "--object-bits" in job.cbmc_flags else ["--object-bits", "12"]) + \
+         ["--json-ui", "--trace", "--unwinding-assertions"]
     if "--no-leak" not in job.cbmc_flags:
         cb.append("--memory-leak-check")
     if job.unwind is not None:
         cb += ["--unwind", str(job.unwind)]
+    if job.unwindset:
+        uset = [u for u in uset if u.rsplit(":", 1)[0] not in job.unwindset] + \
+               ["%s:%d" % kv for kv in sorted(job.unwindset.items())]
     if uset:
         cb += ["--unwindset", ",".join(uset)]
     cb += [f for f in job.cbmc_flags if f != "--no-leak"]
@@ -268,6 +272,12 @@ def run_job(job, canary=False):
         res["seconds"] = time.time() - t0
         return res
     res["obligations"] = len(results)
+    if any(r.get("status") == "ERROR" for r in results):
+        # the back end gave up (out of memory, internal error): nothing is decided, and it is not an unwinding problem
+        res["status"] = "error"
+        res["detail"] = "solver error, nothing decided: " + ("; ".join(errors)[-400:] or "obligations in status ERROR")
+        res["seconds"] = round(time.time() - t0, 2)
+        return res
     failed = []
     reach = {}
     probes = {}
